@@ -63,6 +63,8 @@ func (c *Case) line() string {
 		return "expr " + wireOf(c.X)
 	case "eqn":
 		return "eqn " + wireOf(c.E)
+	case "bexpr":
+		return "bexpr " + wireOf(c.X)
 	case "c06":
 		return "c06 " + lib.HexF(c.Text)
 	}
@@ -81,6 +83,9 @@ func parseCaseLine(line string) (*Case, error) {
 	case "eqn":
 		e, err := parseWireEqn(line[i+1:])
 		return &Case{Kind: "eqn", E: e, Stream: "corpus"}, err
+	case "bexpr":
+		x, err := parseWireExpr(line[i+1:])
+		return &Case{Kind: "bexpr", X: x, Stream: "corpus"}, err
 	case "text", "c06":
 		b, err := lib.UnhexF(strings.TrimSpace(line[i+1:]))
 		return &Case{Kind: line[:i], Text: b, Stream: "corpus"}, err
@@ -270,10 +275,17 @@ func main() {
 			}
 			streamRandom(emit, lib.NewRng(*seed), n)
 		}
-		if on("deep") {
-			n := 3000
+		if on("bracket") {
+			n := 1500
 			if full {
-				n = 40000
+				n = 30000
+			}
+			streamBracket(emit, lib.NewRng(*seed^0xb7ac), n, full)
+		}
+		if on("deep") {
+			n := 6000
+			if full {
+				n = 60000
 			}
 			streamDeep(emit, lib.NewRng(*seed^0xdee9), n)
 		}
@@ -292,7 +304,7 @@ func main() {
 		fmt.Fprintln(os.Stderr, "harness failure:", e)
 		os.Exit(3)
 	}
-	rep.Rule = "objects built through the public jp constructors: every single-byte key and every pair (thorough: triple) over a class alphabet in child, first-child, after-descent, filter-path, string-constant and union positions; every fragment-kind sequence up to length 3 (4); slice/index/union integer boundaries; every equation tree with up to 3 operator nodes over the operator table (quick: one operator per precedence level and kind for 3 nodes) with constant and with path leaves; constant families (floats, lists, regexes); seeded random deep expressions and equations; a stream of seeded random equation trees with 4-6 levels of operator nesting over all 19 binary constructors, Not, length/count/match/search, every kind of constant in any position and path leaves with filters nested two levels (distribution under deep.*); then texts: hand-written and byte mutations of the printed texts. Each object: String and BracketString (or Equation/Script/Filter String) printed, re-parsed, re-printed, compared structurally and evaluated on data trees built from its keys; duplicates dropped by 64-bit hash; distinct_nontrivial counts objects with at least two fragments or one operator and texts of length >= 2"
+	rep.Rule = "objects built through the public jp constructors: every single-byte key and every pair (thorough: triple) over a class alphabet in child, first-child, after-descent, filter-path, string-constant and union positions; every fragment-kind sequence up to length 3 (4); slice/index/union integer boundaries; every equation tree with up to 3 operator nodes over the operator table (quick: one operator per precedence level and kind for 3 nodes) with constant and with path leaves; constant families (floats, lists, regexes); seeded random deep expressions and equations; a stream of seeded random equation trees with 4-6 levels of operator nesting over all 19 binary constructors, Not, length/count/match/search, every kind of constant in any position and path leaves with filters nested two levels (distribution under deep.*); API-built expressions with the Bracket flag fragment (jp.B(), Expr.B()): every fragment sequence of length 1-4 over a nine-letter alphabet with the flag at every position, and seeded random expressions (with filters) with flags inserted, printed by String and BracketString, compared with the model, parsed back, re-printed and evaluated (Get and Has as multisets) against the original (distribution under bracket.*); then texts: hand-written and byte mutations of the printed texts. Each object: String and BracketString (or Equation/Script/Filter String) printed, re-parsed, re-printed, compared structurally and evaluated on data trees built from its keys; duplicates dropped by 64-bit hash; distinct_nontrivial counts objects with at least two fragments or one operator and texts of length >= 2"
 	if err := rep.Write(*outPath); err != nil {
 		fmt.Fprintln(os.Stderr, err)
 		os.Exit(3)
@@ -609,11 +621,6 @@ func processBatch(d *lib.Driver, batch []Case) error {
 		fmt.Fprintln(os.Stderr, "TIMING ask", len(batch), time.Since(t0))
 	}
 	for _, w := range items {
-		if os.Getenv("VERIF_JPTEXT_TIMING") != "" {
-			t1 := time.Now()
-			defer func(w *work) {}(w)
-			_ = t1
-		}
 		w.ans = ans[w.first : w.first+len(w.reqs)]
 		for k, a := range w.ans {
 			if a == "bad-op" {
@@ -660,6 +667,17 @@ func prepare(c *Case) *work {
 		w.add("xprint\t1\t" + ast)
 		w.add("xjudge\t0\t" + ast)
 		w.add("xjudge\t1\t" + ast)
+		w.add("xparse\t" + lib.HexF(goText(w.texts[0])))
+		w.add("xparse\t" + lib.HexF(goText(w.texts[1])))
+	case "bexpr":
+		w.buildPanic = safe(func() string { w.x = c.X.Build(); return "" })
+		ast := wireOf(c.X)
+		w.texts[0] = safe(func() string { return w.x.String() })
+		w.texts[1] = safe(func() string { return w.x.BracketString() })
+		w.add("bxprint\t0\t" + ast)
+		w.add("bxprint\t1\t" + ast)
+		w.add("bxjudge\t0\t" + ast)
+		w.add("bxjudge\t1\t" + ast)
 		w.add("xparse\t" + lib.HexF(goText(w.texts[0])))
 		w.add("xparse\t" + lib.HexF(goText(w.texts[1])))
 	case "eqn":
@@ -727,6 +745,8 @@ func (w *work) judge() {
 	switch w.c.Kind {
 	case "expr":
 		w.judgeExpr()
+	case "bexpr":
+		w.judgeBExpr()
 	case "eqn":
 		w.judgeEqn()
 	case "text":
